@@ -25,6 +25,22 @@ func (s *stats) incrementConnections() {
 	s.mutex.Unlock()
 }
 
+// tryIncrementConnections takes a connection slot unless the server limit is
+// reached already (check and increment in one step).
+func (s *stats) tryIncrementConnections() error {
+	s.mutex.Lock()
+	if s.currentConnections >= config.Server.MaxConnections {
+		s.mutex.Unlock()
+		return fmt.Errorf("Exceeded max allowed concurrent connections of %d",
+			config.Server.MaxConnections)
+	}
+	s.currentConnections++
+	s.lifetimeConnections++
+	s.mutex.Unlock()
+	s.logServerStats()
+	return nil
+}
+
 func (s *stats) decrementConnections() {
 	defer s.logServerStats()
 	s.mutex.Lock()
